@@ -66,8 +66,17 @@ def cmd_verify(sid, wt):
     rc, out = sh("cargo test --offline --test seeded_demo 2>&1", cwd=wt)
     p, f = test_summary(out)
     res["demo_with_patch"] = {"rc": rc, "passed": p, "failed": f}
+    rel = ""
+    if res["demo_with_patch"]["rc"] == 0:
+        # a change that only shows without debug assertions / overflow checks: repeat the demonstration in the release profile
+        rc, out = sh("cargo test --release --offline --test seeded_demo 2>&1", cwd=wt)
+        p, f = test_summary(out)
+        res["demo_with_patch_release"] = {"rc": rc, "passed": p, "failed": f}
+        if rc != 0:
+            res["demo_with_patch"] = dict(res["demo_with_patch_release"], profile="release")
+            rel = "--release "
     sh("git checkout -- src", cwd=wt)
-    rc, out = sh("cargo test --offline --test seeded_demo 2>&1", cwd=wt)
+    rc, out = sh("cargo test %s--offline --test seeded_demo 2>&1" % rel, cwd=wt)
     p, f = test_summary(out)
     res["demo_without_patch"] = {"rc": rc, "passed": p, "failed": f}
     sh("git checkout -- . && git clean -fdq tests", cwd=wt)
